@@ -1,5 +1,5 @@
 """The per-property checks.  Each takes a Run and composes units."""
-import os, random
+import os, random, json
 from . import build, engine, rulesets, units, product
 
 CHECKS = {}
@@ -427,3 +427,167 @@ def c14(run):
     cases = units.product_unit(run, fd, srcs, cfgs, tag="product", san=True)
     units.fault_unit(run, [c for c in cases if c.status == "ok"], rng, per_case=2 if q else 6, max_points=30 if q else 200)
     run.assumptions += ["one fault per run (single-fault enumeration over every allocation index / read index of each scenario, capped per scenario in the quick tier)"]
+
+
+# ------------------------------------------------------------------ generator side (flex as a process)
+def _valid_specs(run, n=10):
+    """complete, self-contained, compilable specifications"""
+    from . import scanner
+    srcs = rulesets.handwritten()[:4] + rulesets.random_family(run.seed, n)
+    out = []
+    for i, s in enumerate(srcs):
+        s = json.loads(json.dumps(s))
+        for k, r in enumerate(s["rules"]): r["action"] = "{ n%d++; if (yyleng > 90) return %d; }" % (k % 3, k + 1)
+        hdr = ["%option noyywrap" + (" case-insensitive" if s.get("ci") else "") + (" posix-compat" if s.get("posix") else "")]
+        hdr += [("%x " if c["excl"] else "%s ") + c["name"] for c in s["scs"][1:]]
+        text = "\n".join(hdr + ["%{", "#include <stdio.h>", "static int n0, n1, n2;", "%}"] + scanner.render_defs(s, s.get("posix", False)) + ["%%"]
+                         + [l.replace("{ VEOF(", "{ return 0; /* ").replace(") }", " */ }") if "VEOF(" in l else l for l in scanner.render_rules(s, s.get("posix", False))]
+                         + ["%%", "int main(void) { while (yylex()) ; printf(\"%d %d %d\\n\", n0, n1, n2); return 0; }", ""])
+        out.append((s.get("name", "s%d" % i), text.encode("latin-1"), s))
+    return out
+
+
+def _obs_check(run, obs, cfgname, tag, describe):
+    """have TLC judge the observation table against FlexProc; report the first offending observations"""
+    from . import tlc as T
+    if not obs: return
+    path = os.path.join(run.work, tag + ".obs.ndjson")
+    remaining = list(obs)
+    rounds = 0
+    while remaining and rounds < 12:
+        rounds += 1
+        with open(path, "w") as f:
+            for o in remaining:
+                f.write(json.dumps({k: v for k, v in o.items() if k not in ("stderr", "cmd", "what", "files")}) + "\n")
+        r = T.run("FlexProc", cfg=cfgname, env={"OBS": path}, workers=1, timeout=600)
+        run.add_tlc(r)
+        if r.ok: break
+        if not r.violated:
+            run.error("FlexProc/%s failed: %s" % (cfgname, (r.error or "timeout")[:600])); break
+        i = T.ints(r.last_state.get("i", "1"))[0] - 1
+        o = remaining[i]
+        v = run.violation("proc:" + r.violated, describe(o, r.violated), dict(obs={k: o[k] for k in o if k != "files"}), o.get("files", []))
+        if cfgname == "MC_Proc18.cfg":
+            remaining = [x for x in remaining if x.get("group") != o.get("group")]
+        elif v.known:
+            # every observation exhibiting the same known finding is set aside at once
+            sig = (json.dumps(o.get("faults"), sort_keys=True), o["rc"], o["sig"])
+            remaining = [x for x in remaining if (json.dumps(x.get("faults"), sort_keys=True), x["rc"], x["sig"]) != sig]
+            rounds -= 1
+        else:
+            remaining = remaining[:i] + remaining[i + 1:]
+    run.unit(tag, observations=len(obs), tlc_rounds=rounds)
+
+
+@check("C16", "fault_enumeration")
+def c16(run):
+    from . import genside as G
+    import json as _j
+    fd = build.build_flex("asan")
+    rng = random.Random(run.seed)
+    q = run.tier == "quick"
+    valid = _valid_specs(run, 6 if q else 30)
+    obs = []
+    OPTS = [[], ["-Cf"], ["-CF"], ["-Ca"], ["-Ce"], ["-Cm"], ["-7"], ["-B"], ["-I"], ["-i"], ["-l"], ["-X"], ["-d"], ["-p"], ["-s"], ["-w"],
+            ["-v"], ["-L"], ["-R"], ["-Cfe"], ["--bison-bridge", "-R"], ["-T"], ["--stdinit"], ["--nounistd"], ["-P", "zz"], ["--yylineno"]]
+    jobs = []
+    # (a) every requested output x every write-failure mode, on valid input
+    for name, text, _ in valid[:3 if q else 10]:
+        for want in (("scanner",), ("scanner", "header"), ("scanner", "tables"), ("scanner", "backup"), ("scanner", "header", "tables", "backup")):
+            jobs.append(dict(kind="valid", name=name, text=text, args=[], want=want, faults={}))
+            for k in want:
+                for mode in ("devfull", "nodir") + (("rlimit",) if k == "scanner" and len(want) == 1 else ()):
+                    jobs.append(dict(kind="fault", name=name, text=text, args=[], want=want, faults={k: mode}))
+        jobs.append(dict(kind="fault", name=name, text=text, args=[], want=("scanner",), faults={"scanner": "devfull"}, stdout_scanner=True))
+    # (b) valid input x option sets
+    for name, text, _ in valid:
+        for o in rng.sample(OPTS, 6 if q else len(OPTS)):
+            jobs.append(dict(kind="valid-opts", name=name, text=text, args=o + (rng.choice(OPTS) if rng.random() < 0.3 else []), want=("scanner",), faults={}, compile_check=False))
+    # (c) structural mutations and random byte strings
+    for n in range(150 if q else 1500):
+        name, text, _ = rng.choice(valid)
+        t, what = text, []
+        for _ in range(rng.randint(1, 3)):
+            t, w = G.mutate(rng, t); what.append(w)
+        jobs.append(dict(kind="mutant", name=name + ":" + ";".join(what), text=t, args=rng.choice(OPTS), want=("scanner",), faults={}, compile_check=False))
+    for n in range(60 if q else 600):
+        t = bytes(rng.randrange(256) for _ in range(rng.choice([0, 1, 5, 40, 300, 3000])))
+        if rng.random() < 0.5: t = b"%%\n" + t
+        jobs.append(dict(kind="random", name="random-%d" % n, text=t, args=rng.choice(OPTS), want=("scanner",), faults={}, compile_check=False))
+    # (d) internal limits
+    for name, text, args in G.limit_specs():
+        jobs.append(dict(kind="limit", name=name, text=text, args=args, want=("scanner",), faults={}, compile_check=False, timeout=120))
+        jobs.append(dict(kind="limit", name=name + "-Ca", text=text, args=["-Ca"], want=("scanner",), faults={}, compile_check=False, timeout=120))
+
+    import concurrent.futures as cf
+    def one(j):
+        o, wd = G.run_flex(fd, j["text"], j["args"], want=j["want"], faults=j["faults"], timeout=j.get("timeout", 40),
+                           stdout_scanner=j.get("stdout_scanner", False), compile_check=j.get("compile_check", True))
+        o.update(kind=j["kind"], name=j["name"], group=j["name"], env="", args=" ".join(j["args"]), faults=j["faults"], want=list(j["want"]))
+        return o
+    with cf.ThreadPoolExecutor(units.NCPU) as ex:
+        obs = list(ex.map(one, jobs))
+    for j, o in zip(jobs, obs):
+        run.note_case(dict(k=j["kind"], n=j["name"], a=j["args"], f=j["faults"], w=j["want"]))
+        o["_text"] = j["text"]
+    run.sample(dict(kind="observation", **{k: obs[0][k] for k in ("name", "args", "rc", "diag", "outs")}))
+    run.sample(dict(kind="observation", **{k: obs[-1][k] for k in ("name", "args", "rc", "diag")}))
+
+    def describe(o, inv):
+        return "flex %s on %s (%s)%s: %s fails: rc=%s signal=%s timeout=%s sanitizer=%s diagnostics=%s; outputs %s; stderr: %s" % (
+            o["args"], o["name"][:80], o["kind"], (" with write fault " + _j.dumps(o["faults"])) if o["faults"] else "", inv, o["rc"], o["sig"],
+            o["timeout"], o["asan"], o["diag"], [(x["kind"], x["complete"]) for x in o["outs"] if x["requested"]], o["stderr"][:200].replace("\n", " | "))
+    for o in obs:
+        p = os.path.join(run.work, "in-%s.l" % abs(hash(o["name"])))
+        o["files"] = [p]
+        open(p, "wb").write(o.pop("_text"))
+    _obs_check(run, obs, "MC_Proc16.cfg", "exit-honest", describe)
+    # a limit overrun must be reported like a syntax problem: some diagnostic, non-zero status (already in ExitHonest)
+    run.assumptions += ["input space explored by structured mutation and seeded random bytes, not exhaustively",
+                        "'complete' for scanner/header of valid input = accepted by the C compiler; for other input = non-empty file"]
+
+
+@check("C18", "exploration")
+def c18(run):
+    from . import genside as G
+    fd = build.build_flex("plain"); fda = build.build_flex("asan")
+    rng = random.Random(run.seed)
+    q = run.tier == "quick"
+    valid = _valid_specs(run, 8 if q else 40)
+    # a rule set large enough to make the generator reallocate its nxt/chk, DFA and NFA arrays
+    kw = b"%option noyywrap\n%%\n" + b"".join(b"%s  return %d;\n" % (("kw%dx%d" % (i, i * 7919 % 1000)).encode(), i % 200 + 1) for i in range(1800)) + b"[a-z0-9]+ return 999;\n.|\\n ;\n%%\nint main(void){return 0;}\n"
+    big = [("keywords-1800", kw, None)]
+    ENVS = [("base", {}, fd, None), ("perturb-a5", {"MALLOC_PERTURB_": "165"}, fd, None), ("perturb-5a", {"MALLOC_PERTURB_": "90"}, fd, None),
+            ("arena1", {"MALLOC_ARENA_MAX": "1", "MALLOC_TOP_PAD_": "1"}, fd, None), ("bigenv", {"VERIF_PAD": "x" * 60000}, fd, None),
+            ("cwd", {}, fd, "/tmp"), ("asan-build", {}, fda, None), ("stdout", {}, fd, None), ("file-only", {}, fd, None)]
+    OPTS = [[], ["-Cf"], ["-CF"], ["-Cem"], ["-C"], ["-R"], ["-i"], ["-Ca"]]
+    jobs = []
+    for name, text, _ in valid + big:
+        for o in (rng.sample(OPTS, 3 if q else len(OPTS)) if name != "keywords-1800" else [[], ["-Cf"]]):
+            for en, env, f, cwd in ENVS:
+                jobs.append(dict(name=name, text=text, args=o, env=env, en=en, fd=f, cwd=cwd,
+                                 want=("scanner", "header", "tables") if en not in ("stdout", "file-only") else ("scanner",), stdout_scanner=(en == "stdout")))
+    import concurrent.futures as cf
+    def one(j):
+        o, wd = G.run_flex(j["fd"], j["text"], j["args"], want=j["want"], env=j["env"], cwd=j["cwd"], stdout_scanner=j["stdout_scanner"],
+                           compile_check=False, timeout=120, lname="in.l")
+        o.update(kind="determinism", name=j["name"], group=j["name"] + " " + " ".join(j["args"]) + " " + "+".join(j["want"]), env=j["en"], args=" ".join(j["args"]), faults={})
+        return o
+    with cf.ThreadPoolExecutor(units.NCPU) as ex:
+        obs = list(ex.map(one, jobs))
+    for j in jobs: run.note_case(dict(n=j["name"], a=j["args"], e=j["en"]))
+    run.sample(dict(kind="observation", group=obs[0]["group"], env=obs[0]["env"], digests=[x["digest"] for x in obs[0]["outs"]]))
+
+    def describe(o, inv):
+        return "flex %s on %s: outputs under environment '%s' differ from those of another environment of the same group (rc=%s, digests %s)" % (
+            o["args"], o["name"], o["env"], o["rc"], [(x["kind"], x["digest"]) for x in o["outs"] if x["requested"]])
+    for o in obs: o["files"] = []
+    _obs_check(run, obs, "MC_Proc18.cfg", "deterministic", describe)
+    # bootstrap: the flex built from scan.l regenerates the scanner it was built from
+    import subprocess, filecmp
+    p = subprocess.run([os.path.join(fd, "flex"), "-o", "scan.c", "-t", "scan.l"], cwd=fd, stdout=subprocess.PIPE, stderr=subprocess.PIPE)
+    run.note_case("bootstrap")
+    if p.returncode != 0 or p.stdout != open(os.path.join(fd, "stage1scan.c"), "rb").read():
+        run.violation("bootstrap", "regenerating flex's own scanner with the flex built from it does not reproduce it (rc=%d)" % p.returncode, {}, [])
+    run.unit("bootstrap", identical=(p.returncode == 0))
+    run.assumptions += ["environments are a finite list (allocator perturbation, arena count, environment size, cwd, sanitizer build, -t versus -o)"]
